@@ -30,7 +30,7 @@ def run(ctx):
     for cq in ("torrentfile.hasher:HasherV2", "torrentfile.hasher:HasherHybrid", "torrentfile.hasher:FileHasher"):
         cls = ctx.prog.cls(cq)
         H, F = HF.v2_facts(ctx, cls)
-        n += HF.judge_facts(ctx, "C02.4", cls.name, F, HF.SPEC_V2, HF.ACCEPT, HF.normalise_fact, "BEP 52")
+        n += HF.judge_facts(ctx, "C02.4", cls.name, F, HF.SPEC_V2, HF.ACCEPT, HF.normalise_fact, "BEP 52", reduced_attrs=True)
     n += HF.judge_facts(ctx, "C02.4", "merkle_root", HF.merkle_facts(ctx), HF.SPEC_MERKLE, why="BEP 52")
     mf = HF.merkle_facts(ctx)
     HF.judge_facts(ctx, "C02.4", "next_power_2", {"next_power_2": mf["next_power_2"]},
